@@ -118,16 +118,23 @@ def ordered_factorisations(n, minf=2):
 
 
 KINDS = ['array', 'dict', 'tuple']
-XKINDS = ['array', 'dict', 'scalar']
-OKINDS = ['array', 'tuple', 'none']
+KINDS2 = ['array', 'dict', 'tuple', 'col']         # d >= 2 ('col': rank-2 leaf of shape (d, 1))
+KINDS1 = ['array', 'zerod', 'col']                 # d == 1 ('zerod': 0-d array state)
+XKINDS = ['array', 'dict', 'scalar', 'mat']        # 'mat': per-step inputs of rank 2, leaf shape (n, d, 2)
+OKINDS = ['array', 'tuple', 'none', 'dictmat']     # 'dictmat': per-step output {'a': (m,), 'M': (m, 2)}
+DTYPES = ['f', 'i', 'h']                           # float64, int64, float32 (exact on small integers)
 
 
-def gen_nested_case(rng, lengths, n_xs, has_xs, length, d=None, kind=None, xkind=None, okind=None, dtype=None):
+def pick_kind(d, i): return KINDS1[i % 3] if d == 1 else KINDS2[i % 4]
+
+
+def gen_nested_case(rng, lengths, n_xs, has_xs, length, d=None, kind=None, xkind=None, okind=None, dtype=None, xform=None):
     d = d or int(rng.integers(1, 4))
-    kind = kind or (KINDS[int(rng.integers(0, 3))] if d >= 2 else 'array')
-    okind = okind or OKINDS[int(rng.integers(0, 3))]
-    m = 0 if okind == 'none' else int(rng.integers(2, 4)) if okind == 'tuple' else int(rng.integers(1, 4))
-    xkind = xkind or XKINDS[int(rng.integers(0, 3))]
+    kind = kind or pick_kind(d, int(rng.integers(0, 12)))
+    okind = okind or OKINDS[int(rng.integers(0, 4))]
+    m = 0 if okind == 'none' else int(rng.integers(2, 4)) if okind in ('tuple', 'array2') else int(rng.integers(1, 4))
+    if okind == 'array2': okind = 'array'
+    xkind = xkind or XKINDS[int(rng.integers(0, 4))]
     A = rand_mat(rng, d, d); b = rand_vec(rng, d); init = rand_vec(rng, d)
     P = rand_mat(rng, m, d) if m else []; Q = rand_mat(rng, m, d) if m else []
     xs = None
@@ -136,11 +143,14 @@ def gen_nested_case(rng, lengths, n_xs, has_xs, length, d=None, kind=None, xkind
             s = rand_vec(rng, n_xs); xs = {'s': s}
         elif xkind == 'dict':
             xs = {'s': rand_vec(rng, n_xs), 'v': [rand_vec(rng, d) for _ in range(n_xs)]}
+        elif xkind == 'mat':
+            xs = {'w': [[rand_vec(rng, 2) for _ in range(d)] for _ in range(n_xs)]}
         else:
             xs = {'v': [rand_vec(rng, d) for _ in range(n_xs)]}
     return dict(d=d, m=m, A=A, b=b, P=P, Q=Q, init=init, xs=xs, xkind=xkind, n_xs=n_xs, length=length,
                 lengths=[int(l) for l in lengths], kind=kind, okind=okind,
-                dtype=dtype or ['f', 'i'][int(rng.integers(0, 2))])
+                xform=xform or ['jnp', 'np_view'][int(rng.integers(0, 2))],
+                dtype=dtype or (DTYPES[int(rng.integers(0, 3))] if math.prod(lengths) <= 8 else DTYPES[int(rng.integers(0, 2))]))
 
 
 def generate(ctx):
@@ -156,15 +166,15 @@ def generate(ctx):
             d = int(rng.integers(1, 4))
             A, b, x0, _ = rand_system(rng, d, 0, n)
             ctx.count(f'repeated n={n}')
-            yield 'repeated', dict(d=d, A=A, b=b, x0=x0, n=n, kind=KINDS[(n + rep) % 3] if d >= 2 else 'array',
-                                   dtype=['f', 'i'][(n + rep) % 2])
+            yield 'repeated', dict(d=d, A=A, b=b, x0=x0, n=n, kind=pick_kind(d, n + rep),
+                                   dtype=DTYPES[(n + rep) % 3] if n <= 8 else DTYPES[(n + rep) % 2])
     # --- step_with_filters ------------------------------------------------------
     for r in range(4):
         for rep in range(2 if quick else 6):
             d = int(rng.integers(1, 4))
             A, b, x0, fl = rand_system(rng, d, r, 1)
             ctx.count(f'filters r={r}')
-            yield 'filters', dict(d=d, A=A, b=b, x0=x0, filters=fl, kind=KINDS[(r + rep) % 3] if d >= 2 else 'array')
+            yield 'filters', dict(d=d, A=A, b=b, x0=x0, filters=fl, kind=pick_kind(d, r + rep))
     # --- trajectory_from_step ---------------------------------------------------
     if quick:
         pairs = [(o, i) for o in (1, 2, 3, 6) for i in (1, 2, 3, 6)] + [(0, 2), (2, 0), (4, 5), (5, 1), (1, 4)]
@@ -179,10 +189,12 @@ def generate(ctx):
                 A, b, x0, fl = rand_system(rng, d, r, outer * inner)
                 post = None
                 if has_post:
-                    m = int(rng.integers(1, 4)); post = dict(m=m, P=rand_mat(rng, m, d), p=rand_vec(rng, m))
+                    m = int(rng.integers(1, 4)); post = dict(m=m, P=rand_mat(rng, m, d), p=rand_vec(rng, m), tree=int(rng.integers(0, 2)))
                 ctx.count(f'traj outer={outer} inner={inner}'); ctx.count(f'traj swi={swi} post={has_post} r={r}')
+                small = max(vmax(s_) for s_ in loop_states(A, b, fl, x0, outer * inner)) < 2 ** 18
                 yield 'traj', dict(d=d, A=A, b=b, x0=x0, outer=outer, inner=inner, swi=swi, post=post, filters=fl,
-                                   kind=KINDS[cnt % 3] if d >= 2 else 'array', dtype=['f', 'i'][(cnt // 3) % 2])
+                                   kind=pick_kind(d, cnt), again=int(cnt % 3 == 0), jit=int(cnt % 8 == 5),
+                                   dtype=DTYPES[(cnt // 3) % 3] if small else DTYPES[(cnt // 3) % 2])
     # --- nested_checkpoint_scan: every ordered factorisation --------------------
     ns = [1, 2, 4, 6, 8, 12] if quick else list(range(1, 25))
     cnt = 0
@@ -198,7 +210,16 @@ def generate(ctx):
             has_xs = cnt % 3 != 0
             length = n if cnt % 2 == 0 else None
             ctx.count(f'nested n={n}'); ctx.count(f'nested depth={len(lengths)}'); ctx.count(f'nested xs={int(has_xs)} length={length is not None}')
-            yield 'nested', gen_nested_case(rng, lengths, n, has_xs, length)
+            deep = ['tuple', 'dictmat', 'array2'][cnt % 3] if len(lengths) >= 3 else None
+            yield 'nested', gen_nested_case(rng, lengths, n, has_xs, length, okind=deep,
+                                            xkind=XKINDS[cnt % 4] if len(lengths) >= 3 else None)
+    # >= 3 levels with rank-2 / pytree per-step outputs and rank-2 inputs, every state kind
+    for j, lengths in enumerate([[2, 2, 2], [2, 3, 2], [3, 1, 2, 2]] if quick else
+                                [[2, 2, 2], [2, 3, 2], [3, 1, 2, 2], [2, 2, 3], [4, 2, 3], [2, 2, 2, 2], [3, 2, 2, 2], [2, 1, 2, 1, 3]]):
+        n = math.prod(lengths)
+        yield 'nested', gen_nested_case(rng, lengths, n, True, [None, n][j % 2], d=2 + j % 2, kind=KINDS2[j % 4], xkind='mat',
+                                        okind='dictmat', xform=['np_view', 'jnp'][j % 2])
+        yield 'nested', gen_nested_case(rng, lengths, n, j % 2 == 0, n, d=1, kind=KINDS1[1 + j % 2], xkind='dict', okind='tuple')
     # zero-length levels, as coded: tolerated only in the last position
     for lengths, n in [([3, 0], 0), ([0], 0), ([2, 2, 0], 0)]:
         yield 'nested', gen_nested_case(rng, lengths, n, True, None, okind='array')
@@ -223,25 +244,41 @@ def generate(ctx):
                                   A=(rng.integers(-8, 9, size=(d, d)) / 8).tolist(), init=(rng.integers(-8, 9, size=d) / 8).tolist(),
                                   xs=(rng.integers(-8, 9, size=(n, d)) / 8).tolist(), cw=(rng.integers(-8, 9, size=d) / 8).tolist(),
                                   yw=(rng.integers(-8, 9, size=(n, d)) / 8).tolist())
+    # --- user-supplied scan_fn / outer_scan_fn / inner_scan_fn / checkpoint_fn -----
+    cs = [(2, 3, [2, 3], 'both'), (3, 1, [2, 2, 2], 'outer'), (2, 2, [3, 2], 'inner'), (1, 4, [4], 'both'), (3, 2, [1, 3, 2], 'inner')]
+    if not quick: cs += [(4, 3, [2, 3, 2], 'both'), (2, 5, [2, 2, 2, 2], 'outer'), (5, 2, [5, 1], 'inner'), (1, 1, [1], 'both')]
+    for j, (outer, inner, lengths, mix) in enumerate(cs):
+        d = 1 + j % 3
+        A, b, x0, _ = rand_system(rng, d, 0, max(outer * inner, math.prod(lengths)))
+        yield 'custom_scan', dict(d=d, A=A, b=b, x0=x0, outer=outer, inner=inner, swi=j % 2, lengths=lengths, mix=mix,
+                                  weights=[float(v) / 4 for v in rng.integers(-8, 9, size=1 + j)], kind=pick_kind(d, j))
     # --- accumulate_repeated ----------------------------------------------------
+    structured = [[0.0, 0.0, 0.0, 1.0], [1.0, 0.0, 0.0, 0.0], [1.0, 1.0, 1.0], [0.0, 0.0], [0.25]]
+    for i, w in enumerate(structured if quick else structured + [[0.0] * 7 + [2.0], [1.0] * 9]):
+        d = 1 + i % 3
+        A, b, x0, _ = rand_system(rng, d, 0, len(w))
+        yield 'accumulate', dict(d=d, A=A, b=b, x0=x0, weights=w, kind=pick_kind(d, i), wform=['np_ro', 'jnp'][i % 2])
     for i, n in enumerate([0, 1, 2, 5, 9] if quick else [0, 1, 2, 3, 4, 5, 6, 9, 12, 17, 24]):
         d = int(rng.integers(1, 4))
         A, b, x0, _ = rand_system(rng, d, 0, n)
         w = [float(v) / 4 for v in rng.integers(-8, 9, size=n)]
         ctx.count(f'accumulate n={n}')
-        yield 'accumulate', dict(d=d, A=A, b=b, x0=x0, weights=w, kind=KINDS[i % 3] if d >= 2 else 'array')
+        yield 'accumulate', dict(d=d, A=A, b=b, x0=x0, weights=w, kind=pick_kind(d, i), wform=['jnp', 'np_ro'][i % 2])
     # --- digital filter initialisation -----------------------------------------
-    cfgs = [(6.0, 6.0, 0.5), (5.0, 4.0, 0.5), (7.0, 5.0, 1.0), (5.0, 6.0, 1.0), (0.4, 1.0, 0.5), (3.0, 2.5, 0.25), (1.0, 1.0, 0.5), (3.0, 3.0, 0.5)]
-    for i, (ts, cp, dt) in enumerate(cfgs[: (5 if quick else 8)] * (1 if quick else 3)):
+    # (time_span, cutoff, dt): half-even rounding cases, N = 0, negative time direction, dt over decades
+    cfgs = [(6.0, 6.0, 0.5), (5.0, 4.0, 0.5), (7.0, 5.0, 1.0), (5.0, 6.0, 1.0), (0.4, 1.0, 0.5), (-3.0, 2.0, -0.5), (0.006, 0.005, 0.001),
+            (3.0, 2.5, 0.25), (1.0, 1.0, 0.5), (3.0, 3.0, 0.5), (600.0, 500.0, 100.0), (12.0, 10.0, 0.25), (-5.0, -4.0, -0.5)]
+    for i, (ts, cp, dt) in enumerate(cfgs[: (7 if quick else 13)] * (1 if quick else 2)):
         d = 2 + i % 2
         A = (rng.integers(-4, 5, size=(d, d)) / 8).tolist()
         dv = [float(v) / 8 for v in rng.integers(-4, 1, size=d)]
+        dv[i % d] = -float(rng.integers(1, 4)) / 8 / max(1.0, abs(dt))    # the implicit part always depends on the step size
         x0 = [float(v) / 2 for v in rng.integers(-6, 7, size=d)]
         fl = [[float(rng.integers(-1, 2)) / 8, 1.0 - float(rng.integers(0, 2)) / 8, float(rng.integers(-2, 3)) / 16] for _ in range(i % 3)]
         ctx.count(f'dfi N={round(ts / (2 * dt))}')
         yield 'dfi', dict(d=d, A=A, dv=dv, x0=x0, time_span=ts, cutoff=cp, dt=dt, filters=fl, solver=['bfe', 'cn'][i % 2],
-                          kind=KINDS[i % 3])
-        yield 'solver_step', dict(d=d, A=A, dv=dv, x0=x0, dt=dt, solver=['bfe', 'cn'][i % 2], kind=KINDS[(i + 1) % 3])
+                          kind=KINDS2[i % 4])
+        yield 'solver_step', dict(d=d, A=A, dv=dv, x0=x0, dt=dt, solver=['bfe', 'cn'][i % 2], kind=KINDS2[(i + 1) % 4])
     for i, (ts, cp, dt) in enumerate(cfgs[: (3 if quick else 8)]):
         d = 3
         M = (rng.integers(-4, 5, size=(d, d)) / 8).tolist()
@@ -256,19 +293,27 @@ def generate(ctx):
 def pack(u, kind):
     if kind == 'array': return u
     if kind == 'dict': return {'p': u[:1], 'q': u[1:]}
+    if kind == 'zerod': return u[0]
+    if kind == 'col': return u[:, None]
     return (u[0], u[1:])
 
 
 def unpack(t, kind):
+    """Inverse of pack; also works on stacked trees (leading axes)."""
     jax, jnp, ti = J()
     if kind == 'array': return t
     if kind == 'dict': return jnp.concatenate([t['p'], t['q']], axis=-1)
+    if kind == 'zerod': return t[..., None]
+    if kind == 'col': return t[..., 0]
     return jnp.concatenate([t[0][..., None], t[1]], axis=-1)
+
+
+NP_DT = {'f': np.float64, 'i': np.int64, 'h': np.float32}
 
 
 def arr(v, dtype, shape=None):
     jax, jnp, ti = J()
-    a = np.asarray(v, dtype=np.float64 if dtype == 'f' else np.int64)
+    a = np.asarray(v, dtype=NP_DT[dtype])
     if shape is not None: a = a.reshape(shape)
     return jnp.asarray(a)
 
@@ -292,7 +337,7 @@ def mk_step(A, b, kind, dtype):
 
 def mk_filters(fl, dtype):
     jax, jnp, ti = J()
-    cast = (lambda v: v) if dtype == 'f' else int
+    cast = (lambda v: v) if dtype in ('f', 'h') else int
     def mk(p):
         al, be, ga = cast(p[0]), cast(p[1]), cast(p[2])
         return lambda u, un: jax.tree_util.tree_map(lambda a, c: al * a + be * c + ga, u, un)
@@ -330,10 +375,34 @@ def r_traj(ctx, a):
     kw = {}
     if post is not None:
         Pj = arr(post['P'], dt, (post['m'], d)); pj = arr(post['p'], dt)
-        kw['post_process_fn'] = lambda s: Pj @ unpack(s, kind) + pj
-    final, frames = ti.trajectory_from_step(step, outer, inner, start_with_input=bool(swi), **kw)(pack(arr(a['x0'], dt), kind))
+        if post.get('tree'):     # pytree-valued post-processing
+            kw['post_process_fn'] = lambda s: {'y': Pj @ unpack(s, kind) + pj, 's': 2 * (Pj @ unpack(s, kind) + pj)[0]}
+        else:
+            kw['post_process_fn'] = lambda s: Pj @ unpack(s, kind) + pj
+    fn = ti.trajectory_from_step(step, outer, inner, start_with_input=bool(swi), **kw)
+    tree = post is not None and bool(post.get('tree'))
+    x0p = pack(arr(a['x0'], dt), kind)
+    final, frames = fn(x0p)
     fin = frs(unpack(final, kind))
+    if tree:
+        ctx.oracle('pytree post-processed frames are stacked leafwise',
+                   np.shape(frames['s']) == (outer,) and np.array_equal(np.asarray(frames['s']), 2 * np.asarray(frames['y'])[:, 0]),
+                   {'s': frs(frames['s'])})
+        frames = frames['y']
     fr_arr = np.asarray(frames if post is not None else unpack(frames, kind))
+    if a.get('again'):
+        # purity: the same trajectory function on another input, then on the first input again
+        x1p = pack(arr([v + 1 for v in a['x0']], dt), kind)
+        fn(x1p)
+        f2, fr2 = fn(x0p)
+        l1 = [np.asarray(l) for l in jax.tree_util.tree_leaves((final, frames if post is not None else unpack(frames, kind)))]
+        l2 = [np.asarray(l) for l in jax.tree_util.tree_leaves((f2, fr2['y'] if tree else fr2 if post is not None else unpack(fr2, kind)))]
+        ctx.oracle('repeated evaluation of one trajectory function is bit-identical',
+                   len(l1) == len(l2) and all(np.array_equal(p_, q_) for p_, q_ in zip(l1, l2)), None)
+    if a.get('jit'):
+        f3, fr3 = jax.jit(fn)(x0p)
+        fr3 = fr3['y'] if tree else fr3 if post is not None else unpack(fr3, kind)
+        ctx.oracle('jitted trajectory equals the eager one', frs(unpack(f3, kind)) + frs(fr3) == fin + frs(fr_arr), None)
     m = post['m'] if post is not None else d
     ints = [d, outer, inner, swi, int(post is not None), m, len(fl)]
     arrs = [flat(a['A']), a['b'], a['x0'], flat(post['P']) if post else [], post['p'] if post else [], flat(fl)]
@@ -364,6 +433,7 @@ def _xs_vectors(a):
         v = [0] * d
         if 's' in xs: v = [t + xs['s'][k] for t in v]
         if 'v' in xs: v = vadd(v, xs['v'][k])
+        if 'w' in xs: v = vadd(v, [p_[0] + p_[1] for p_ in xs['w'][k]])
         out.append(v)
     return out
 
@@ -379,14 +449,24 @@ def _mk_body(a):
         if x is not None:
             if 's' in x: c2 = c2 + x['s']
             if 'v' in x: c2 = c2 + x['v']
+            if 'w' in x: c2 = c2 + x['w'][:, 0] + x['w'][:, 1]
         if okind == 'none': return pack(c2, kind), None
         y = Pj @ c2 + Qj @ cu
+        if okind == 'dictmat': return pack(c2, kind), {'a': y, 'M': jnp.stack([y, 2 * y], axis=-1)}
         return pack(c2, kind), (y if okind == 'array' else (y[0], y[1:]))
     xs = None
     if a['xs'] is not None:
         xs = {}
         if 's' in a['xs']: xs['s'] = arr(a['xs']['s'], dt, (a['n_xs'],))
         if 'v' in a['xs']: xs['v'] = arr(a['xs']['v'], dt, (a['n_xs'], d))
+        if 'w' in a['xs']: xs['w'] = arr(a['xs']['w'], dt, (a['n_xs'], d, 2))
+        if a.get('xform') == 'np_view':
+            # read-only, non-contiguous numpy views instead of jax arrays
+            def view(l):
+                l = np.asarray(l); big = np.zeros((2 * l.shape[0] + 1,) + l.shape[1:], dtype=l.dtype)
+                big[1::2] = l; v = big[1::2]; v.flags.writeable = False
+                return v
+            xs = {k: view(v) for k, v in xs.items()}
     return body, xs
 
 
@@ -394,6 +474,7 @@ def _ys_array(ys, a, n):
     jax, jnp, ti = J()
     if a['okind'] == 'none': return np.zeros((n, 0))
     if a['okind'] == 'array': return np.asarray(ys)
+    if a['okind'] == 'dictmat': return np.asarray(ys['a'])
     return np.asarray(jnp.concatenate([ys[0][..., None], ys[1]], axis=-1))
 
 
@@ -440,6 +521,11 @@ def r_nested(ctx, a):
     ys_arr = _ys_array(ys, a, n)
     impl = frs(unpack(c, a['kind'])) + frs(ys_arr)
     ctx.exact('nested_checkpoint_scan (carry, stacked outputs)', impl, mfrs(mod))
+    if a['okind'] == 'dictmat':
+        M = np.asarray(ys['M'])
+        ctx.oracle('rank-2 per-step outputs are stacked along the leading axis only',
+                   M.shape == (n, m, 2) and ys_arr.shape == (n, m) and np.array_equal(M, np.stack([ys_arr, 2 * ys_arr], axis=-1)),
+                   {'shape': list(M.shape), 'expected': [n, m, 2]})
     # property clause: equals the flat scan (lax.scan and the plain loop)
     X = _xs_vectors(a) if xs is not None else [[0] * d] * n
     if len(X) == n:
@@ -490,13 +576,85 @@ def r_nested_grad(ctx, a):
 def r_accumulate(ctx, a):
     jax, jnp, ti = J()
     d, w, kind = a['d'], a['weights'], a['kind']
-    out = ti.accumulate_repeated(mk_step(a['A'], a['b'], kind, 'f'), jnp.asarray(np.asarray(w, dtype=np.float64)),
-                                 pack(arr(a['x0'], 'f'), kind))
+    wn = np.asarray(w, dtype=np.float64)
+    if a.get('wform') == 'np_ro': wj = wn.copy(); wj.flags.writeable = False     # what DFI passes: a numpy array
+    else: wj = jnp.asarray(wn)
+    out = ti.accumulate_repeated(mk_step(a['A'], a['b'], kind, 'f'), wj, pack(arr(a['x0'], 'f'), kind))
     impl = frs(unpack(out, kind))
+    ctx.oracle('accumulate_repeated leaves its weights untouched', np.array_equal(np.asarray(wj), wn), None)
     ctx.exact('accumulate_repeated', impl, mfrs(ctx.model.call(5, [d], [flat(a['A']), a['b'], a['x0'], w])))
     st = loop_states(a['A'], a['b'], [], a['x0'], len(w))
     ref = [sum(Fraction(w[k]) * st[k + 1][i] for k in range(len(w))) for i in range(d)]
     ctx.oracle('weighted accumulation equals sum_k w_k f^(k+1)(x)', impl == pfrs(ref), {'impl': impl, 'sum': pfrs(ref)})
+
+
+def _py_scan(log, tag):
+    """A user-supplied scan function with the lax.scan API: a plain python loop that records its calls."""
+    jax, jnp, ti = J()
+    tm = jax.tree_util.tree_map
+    def scan(f, init, xs=None, length=None):
+        leaves = jax.tree_util.tree_leaves(xs)
+        n = int(leaves[0].shape[0]) if leaves else int(length)
+        log.append([tag, n])
+        c = init; ys = []
+        for k in range(n):
+            c, y = f(c, tm(lambda l: l[k], xs)); ys.append(y)
+        return c, tm(lambda *t: jnp.stack(t), *ys)
+    return scan
+
+
+def r_custom_scan(ctx, a):
+    """scan_fn / outer_scan_fn / inner_scan_fn / checkpoint_fn arguments are honoured (lengths >= 1 only)."""
+    jax, jnp, ti = J()
+    d, outer, inner, swi, lengths, kind, mix = a['d'], a['outer'], a['inner'], a['swi'], a['lengths'], a['kind'], a['mix']
+    A, b = a['A'], a['b']
+    step = mk_step(A, b, kind, 'f'); x0 = pack(arr(a['x0'], 'f'), kind)
+    # trajectory_from_step
+    log = []
+    kw = {}
+    if mix in ('both', 'outer'): kw['outer_scan_fn'] = _py_scan(log, 'outer')
+    if mix in ('both', 'inner'): kw['inner_scan_fn'] = _py_scan(log, 'inner')
+    final, frames = ti.trajectory_from_step(step, outer, inner, start_with_input=bool(swi), **kw)(x0)
+    st = loop_states(A, b, [], a['x0'], outer * inner)
+    want = pfrs(st[-1]) + pfrs(flat([st[(k if swi else k + 1) * inner] for k in range(outer)]))
+    ctx.oracle('trajectory with user scan functions equals the sequential loop',
+               frs(unpack(final, kind)) + frs(unpack(frames, kind)) == want, {'mix': mix})
+    exp = []
+    if 'outer_scan_fn' in kw: exp.append(['outer', outer])
+    if 'inner_scan_fn' in kw and inner != 1:
+        exp += [['inner', inner]] * (outer if 'outer_scan_fn' in kw else 1)     # lax.scan traces its body once
+    ctx.oracle('outer_scan_fn / inner_scan_fn are the scans that are used', sorted(log) == sorted(exp), {'calls': log, 'expected': exp})
+    # repeated
+    log = []
+    out = ti.repeated(step, inner, _py_scan(log, 'rep'))(x0)
+    ctx.oracle('repeated with a user scan function', frs(unpack(out, kind)) == pfrs(loop_states(A, b, [], a['x0'], inner)[-1])
+               and log == ([] if inner == 1 else [['rep', inner]]), {'calls': log})
+    # nested_checkpoint_scan with user scan_fn and checkpoint_fn
+    log = []; ck = []
+    def checkpoint(fn):
+        ck.append(1); return fn
+    n = math.prod(lengths)
+    xs = jnp.asarray(np.arange(1, n * d + 1, dtype=np.float64).reshape(n, d) % 5)
+    body = lambda c, x: (pack(arr(A, 'f', (d, d)) @ unpack(c, kind) + x, kind), unpack(c, kind) * 2 + x)
+    c, ys = ti.nested_checkpoint_scan(body, x0, xs, nested_lengths=tuple(lengths), scan_fn=_py_scan(log, 's'), checkpoint_fn=checkpoint)
+    rc, rys = loop_scan(A, [0] * d, [[0] * d for _ in range(d)], [[2 * int(i == j) for j in range(d)] for i in range(d)], a['x0'],
+                        [[int(v) for v in row] for row in np.asarray(xs)])
+    rys = [vadd(y, [int(v) for v in row]) for y, row in zip(rys, np.asarray(xs))]
+    ctx.oracle('nested scan with user scan_fn / checkpoint_fn equals the flat loop',
+               frs(unpack(c, kind)) + frs(ys) == pfrs(rc) + pfrs(flat(rys)), {'lengths': lengths})
+    exp = []; reps = 1
+    for l in lengths:
+        exp += [['s', l]] * reps; reps *= l
+    nck = sum(math.prod(lengths[:j]) for j in range(len(lengths) - 1))
+    ctx.oracle('scan_fn is used at every nesting level and checkpoint_fn wraps every sub-scan',
+               sorted(log) == sorted(exp) and len(ck) == nck, {'calls': log, 'expected': exp, 'checkpoints': len(ck), 'expected_checkpoints': nck})
+    # accumulate_repeated
+    log = []
+    w = a['weights']
+    out = ti.accumulate_repeated(step, jnp.asarray(np.asarray(w)), x0, _py_scan(log, 'acc'))
+    st = loop_states(A, b, [], a['x0'], len(w))
+    ref = [sum(Fraction(w[k]) * st[k + 1][i] for k in range(len(w))) for i in range(d)]
+    ctx.oracle('accumulate_repeated with a user scan function', frs(unpack(out, kind)) == pfrs(ref) and log == [['acc', len(w)]], {'calls': log})
 
 
 def _linear_eq(A, dv, kind):
@@ -536,12 +694,15 @@ def _weights_tables(ctx, ts, cp, dt):
     n = np.arange(1, N + 1)
     s1 = np.sinc(n / (N + 1)); s2 = np.sinc(n * ts / (cp * N)) if N else np.zeros(0)
     ref = np.array([_sinc(k / (N + 1)) * _sinc(k * ts / (cp * N)) for k in range(1, N + 1)])
-    ok = w.shape == (N,) and bool(np.all(np.abs(w - ref) <= 1e-14))
+    ok = w.shape == (max(N, 0),) and bool(np.all(np.abs(w - ref) <= 1e-14))
     ctx.table_obligation('H_lanczos_table: N = round-half-even(time_span/(2 dt)), w_n = sinc(n/(N+1)) sinc(n time_span/(cutoff N))',
                          ok, {'N': N, 'impl': w.tolist(), 'ref': ref.tolist()})
     total = 1.0 + 2 * float(w.sum())
     ctx.table_obligation('H_total_weight_nonzero: 1 + 2 sum(w) <> 0', abs(total) > 1e-6, {'total': total})
-    return w, s1, s2
+    # the weight function is pure: a second call returns the same un-normalised table
+    w2 = np.asarray(ti._dfi_lanczos_weights(ts, cp, dt), dtype=np.float64)
+    ctx.oracle('Lanczos weights are the same on every call', w.shape == w2.shape and np.array_equal(w, w2), {'first': w.tolist(), 'second': w2.tolist()})
+    return ref, s1, s2
 
 
 def r_dfi(ctx, a):
@@ -549,8 +710,16 @@ def r_dfi(ctx, a):
     d, kind, dt, fl = a['d'], a['kind'], a['dt'], a['filters']
     eq = _linear_eq(a['A'], a['dv'], kind)
     f = ti.digital_filter_initialization(eq, _solver(a['solver']), mk_filters(fl, 'f'), a['time_span'], a['cutoff'], dt)
-    out = np.asarray(unpack(f(pack(arr(a['x0'], 'f'), kind)), kind))
-    w, s1, s2 = _weights_tables(ctx, a['time_span'], a['cutoff'], dt)
+    x0p = pack(arr(a['x0'], 'f'), kind)
+    out = np.asarray(unpack(f(x0p), kind))
+    # state across calls: same function again (after another input), and a freshly built one
+    f(pack(arr([v + 0.5 for v in a['x0']], 'f'), kind))
+    out2 = np.asarray(unpack(f(x0p), kind))
+    out3 = np.asarray(unpack(ti.digital_filter_initialization(eq, _solver(a['solver']), mk_filters(fl, 'f'), a['time_span'],
+                                                              a['cutoff'], dt)(x0p), kind))
+    ctx.oracle('DFI evaluated repeatedly with the same parameters is bit-identical',
+               np.array_equal(out, out2) and np.array_equal(out, out3), {'first': out.tolist(), 'again': out2.tolist(), 'rebuilt': out3.tolist()})
+    w, s1, s2 = _weights_tables(ctx, a['time_span'], a['cutoff'], dt)   # w: independently computed weights
     mod = ctx.model.call(6, [d, int(a['solver'] == 'cn'), len(fl)],
                          [flat(a['A']), a['dv'], a['x0'], s1.tolist(), s2.tolist(), [dt], flat(fl)])
     # reference: the defining sum with python floats
@@ -615,6 +784,6 @@ def r_dfi_fixed(ctx, a):
     ctx.oracle_close('DFI returns a steady state unchanged', out, np.asarray(a['xstar']), scale=4.0, tol_rel=2.0 ** -44)
 
 
-RUNNERS = {'scan': r_scan, 'repeated': r_repeated, 'filters': r_filters, 'traj': r_traj, 'nested': r_nested,
+RUNNERS = {'custom_scan': r_custom_scan, 'scan': r_scan, 'repeated': r_repeated, 'filters': r_filters, 'traj': r_traj, 'nested': r_nested,
            'nested_grad': r_nested_grad, 'accumulate': r_accumulate, 'dfi': r_dfi, 'solver_step': r_solver_step,
            'dfi_fixed': r_dfi_fixed}
